@@ -492,10 +492,12 @@ class Dict(dict, base.Symbolic, pg_typing.CustomTyping):
 
   def sym_hash(self) -> int:
     """Symbolic hashing."""
+    # NOTE: symbolic equality of dicts does not depend on the key order, hence
+    # the items are combined order-insensitively.
     return base.sym_hash(
         (self.__class__,
-         tuple([(k, base.sym_hash(v)) for k, v in self.sym_items()
-                if v != pg_typing.MISSING_VALUE])))
+         frozenset((k, base.sym_hash(v)) for k, v in self.sym_items()
+                   if v != pg_typing.MISSING_VALUE)))
 
   def _sym_getattr(  # pytype: disable=signature-mismatch  # overriding-parameter-type-checks
       self, key: Union[str, int]) -> Any:
